@@ -47,6 +47,11 @@ func vh07Reqs() []vh07Req {
 			_, _, _, _, err := c.f.WalkGetAttr([]string{"w" + c.side})
 			return err
 		}, false},
+		{"clonegetattr", "twalkgetattr.handle", "Walk", `(NOf "ref")`, ref, nil, "any", -1, "self", none, func(c *vh07Ctx) error { _, _, _, _, err := c.f.WalkGetAttr(nil); return err }, false},
+		{"walkgetattr2", "twalkgetattr.handle", "GetAttr", `(NChild (NOf "walkRef@doWalk") "names[0]")`, []string{"walkRef@doWalk"}, []string{"names[0]"}, "dir2", -1, "child2", nm("w"), func(c *vh07Ctx) error {
+			_, _, _, _, err := c.f.WalkGetAttr([]string{"c", "w" + c.side})
+			return err
+		}, false},
 		{"open", "tlopen.handle", "Open", `(NOf "ref")`, ref, nil, "any", -1, "self", none, func(c *vh07Ctx) error { _, _, err := c.f.Open(ReadOnly); return err }, false},
 		{"read", "tread.handle", "ReadAt", `(NOf "ref")`, ref, nil, "file", 1, "self", none, func(c *vh07Ctx) error { _, err := c.f.ReadAt(make([]byte, 4), 0); return err }, false},
 		{"write", "twrite.handle", "WriteAt", `(NOf "ref")`, ref, nil, "file", 1, "self", none, func(c *vh07Ctx) error { _, err := c.f.WriteAt([]byte("zz"), 0); return err }, false},
@@ -117,6 +122,16 @@ func vh07Seed(fs *vhgFS) {
 
 // vh07Pick chooses the paths of the two requests for a relation; ok=false when the pair does not fit.
 func vh07Pick(a, b *vh07Req, rel string) (pa, pb string, ok bool) {
+	// the two-component walk starts at /d and ends at /d/c/<w>: it is paired with requests on that entry
+	if a.target == "dir2" || b.target == "dir2" {
+		switch {
+		case a.target == "dir2" && b.target != "dir2" && rel == "entrychild" && (b.target == "file" || b.target == "any"):
+			return "/d", "/d/c/" + a.entry("a"), true
+		case b.target == "dir2" && a.target != "dir2" && rel == "entryparent" && (a.target == "file" || a.target == "any"):
+			return "/d/c/" + b.entry("b"), "/d", true
+		}
+		return "", "", false
+	}
 	byType := func(t string, second bool) string {
 		switch t {
 		case "dir":
@@ -195,6 +210,8 @@ func vh07GatePath(r *vh07Req, p, side string) string {
 	switch r.gate {
 	case "child":
 		return p + "/" + r.entry(side)
+	case "child2":
+		return p + "/c/" + r.entry(side)
 	}
 	return p
 }
@@ -286,6 +303,10 @@ func vh07One(a, b *vh07Req, rel string, wait time.Duration, tries int) vh07Obs {
 			q := vh07Rq{Root: r.root, Method: r.method, Recv: r.recv, Refs: map[string]string{}, Names: map[string]string{}, Conn: conn, Fid: fid}
 			for _, s := range r.refs {
 				q.Refs[s] = p
+			}
+			if r.gate == "child2" {
+				q.Refs["walkRef@doWalk"] = p + "/c"
+				q.Refs["ref"] = p
 			}
 			for _, s := range r.names {
 				q.Names[s] = r.entry(side)
@@ -383,10 +404,10 @@ func TestVerifC07(t *testing.T) {
 	} else if !vhThorough() {
 		// quick tier: every pair on a seeded choice of two relations, plus all pairs with a write/global class member on all relations
 		rng := vhRand()
-		heavy := map[string]bool{"setattr": true, "create": true, "mkdir": true, "unlinkat": true, "renameat": true, "open": true, "clunk": true}
+		heavy := map[string]bool{"clonegetattr": true, "walkgetattr2": true, "walkgetattr": true, "setattr": true, "create": true, "mkdir": true, "unlinkat": true, "renameat": true, "open": true, "clunk": true}
 		var sel []job
 		for _, jb := range jobs {
-			if heavy[jb.a.name] && heavy[jb.b.name] || rng.Intn(6) < 2 {
+			if heavy[jb.a.name] && heavy[jb.b.name] || jb.rel == "entrychild" || jb.rel == "entryparent" || rng.Intn(6) < 2 {
 				sel = append(sel, jb)
 			}
 		}
